@@ -1152,7 +1152,7 @@ func genText(r *rng) []byte {
 		if !deepTexts {
 			// the quadratic entry points take seconds on the deepest texts: keep those rare
 			d = []int{50, 300, 1200}[r.n(3)]
-			if r.chance(1, 60) {
+			if r.chance(1, 400) {
 				d = []int{9999, 10000, 10001}[r.n(3)]
 			}
 		}
